@@ -11,6 +11,21 @@ fn usage() -> ! {
     std::process::exit(2);
 }
 
+fn exec_by_prop(prop: &str, sc: &tasim::scenario::Scenario) -> Option<tasim::scenario::Violation> {
+    match prop {
+        "C04" => tasim::c04::exec_plain(sc),
+        "C05" => tasim::c05::exec_plain(sc),
+        "C06" => tasim::c06::exec_plain(sc),
+        "C12" => tasim::c12::exec_plain(sc),
+        "C17" => tasim::c17::exec_plain(sc),
+        "C18" => tasim::c18::exec_plain(sc),
+        p => {
+            eprintln!("harness error: no executor for {}", p);
+            std::process::exit(2)
+        }
+    }
+}
+
 fn main() {
     let args: Vec<String> = std::env::args().collect();
     if args.len() < 3 {
@@ -21,6 +36,20 @@ fn main() {
     let jobs = std::env::var("VERIF_JOBS").ok().and_then(|s| s.parse::<usize>().ok()).unwrap_or_else(|| std::thread::available_parallelism().map(|n| n.get()).unwrap_or(4).min(16));
     let verif = PathBuf::from(std::env::var("VERIF_DIR").unwrap_or_else(|_| "/verif".into()));
     let dry = std::env::var("VERIF_DRY").is_ok();
+    if args[1] == "exec-stdin" {
+        // hermetic single-scenario execution for a parent process (C05 confirmation/minimisation)
+        let mut text = String::new();
+        use std::io::Read;
+        std::io::stdin().read_to_string(&mut text).ok();
+        let sc: tasim::scenario::Scenario = serde_json::from_str(&text).unwrap_or_else(|e| {
+            eprintln!("harness error: bad scenario on stdin: {}", e);
+            std::process::exit(2)
+        });
+        let _ = report::CTX.set(Ctx { prop: args[2].clone(), tier: "quick".into(), seed, jobs: 1, verif: verif.clone(), known: vec![], dry: true });
+        let v = exec_by_prop(&args[2], &sc);
+        println!("RESULT {}", serde_json::to_string(&v).unwrap());
+        std::process::exit(0);
+    }
     if args[1] == "replay" {
         let text = std::fs::read_to_string(&args[2]).unwrap_or_else(|e| {
             eprintln!("harness error: cannot read {}: {}", args[2], e);
@@ -31,17 +60,18 @@ fn main() {
             std::process::exit(2)
         });
         let _ = report::CTX.set(Ctx { prop: rf.property.clone(), tier: "quick".into(), seed: rf.seed, jobs, verif: verif.clone(), known: vec![], dry: true });
-        let v = match rf.property.as_str() {
-            "C04" => tasim::c04::exec_plain(&rf.scenario),
-            "C05" => tasim::c05::exec_plain(&rf.scenario),
-            "C06" => tasim::c06::exec_plain(&rf.scenario),
-            "C12" => tasim::c12::exec_plain(&rf.scenario),
-            "C17" => tasim::c17::exec_plain(&rf.scenario),
-            "C18" => tasim::c18::exec_plain(&rf.scenario),
-            p => {
-                eprintln!("harness error: no executor for {}", p);
-                std::process::exit(2)
+        // C05 looks for hidden process state: replay through the same fresh-child path that confirmed it
+        let v = if rf.property == "C05" {
+            let mut r = None;
+            for _ in 0..20 {
+                r = tasim::driver::hermetic_exec("C05", &rf.scenario).unwrap_or(None);
+                if r.is_some() {
+                    break;
+                }
             }
+            r
+        } else {
+            exec_by_prop(&rf.property, &rf.scenario)
         };
         match v {
             Some(v) => {
